@@ -68,7 +68,11 @@ func c17KeyRun(p c17KeyPlan, cfg *certmagic.Config) []c17KeyPhaseObs {
 				}
 			}(i)
 		}
-		wg.Wait()
+		if !c17Within(time.Duration(p.DeadlineMs)*time.Millisecond+3*time.Second, wg.Wait) {
+			// callers blocked inside throttle (it holds rateLimitersMu): nothing more can be observed
+			c17ThrottleStuck.Store(true)
+			return append(out, c17KeyPhaseObs{Admitted: int(admitted.Load())})
+		}
 		time.Sleep(3 * time.Millisecond) // the loop stores the last stamp after the hand-over
 		// no limiter registered yet (no throttle call so far): nothing that could have been replaced
 		o := c17KeyPhaseObs{Admitted: int(admitted.Load()), Same: first == nil}
@@ -154,9 +158,17 @@ func c17KeyHistories(w *emit.Writer, plans []c17KeyPlan) {
 	cfg, cache := doubles.NewConfig(doubles.NewMemBackend().Handle("c17key"), certmagic.Config{}, certmagic.CacheOptions{})
 	defer cache.Stop()
 	for i, p := range plans {
+		if c17ThrottleStuck.Load() {
+			w.Hist("key_history: skipped_throttle_is_stuck")
+			return
+		}
 		var obs []c17KeyPhaseObs
 		for try := 0; try < 3; try++ {
 			obs = c17KeyRun(p, cfg)
+			if c17ThrottleStuck.Load() {
+				w.Hist("key_history: callers_blocked_in_throttle")
+				return
+			}
 			// fewer admissions than the limiter of phase 1 allows although callers were there = the
 			// process was not scheduled within the deadline: repeat
 			total, want := 0, 0
